@@ -285,6 +285,23 @@ class Gen:
         if k == 32:
             self.note("buffer-grow")
             return "(do (def bb @\"\") (for i 0 %d (buffer/push bb (string i \",\"))) (set %s bb) (show \"%s\" bb))" % (r.range(1, 200), a, t)
+        if k == 33:
+            # C functions as the callbacks of a PEG (cmt / replace constants, peg/replace substitution): peg_rule and
+            # janet_text_substitution call them directly, while the match state lives in C locals only; the pool contains the
+            # C function that collects
+            self.note("peg-cfun-callback")
+            cf = r.choice(["gccollect", "string", "type", "gccollect", "array", "keyword", "tuple", "gccollect"])
+            op = r.below(4)
+            text = "".join(r.choice("abcxyz7 ") for _ in range(r.range(3, 60)))
+            if op == 0:
+                e = "(peg/match ~(any (+ (cmt (<- (range \"az\")) ,%s) (<- 1))) \"%s\")" % (cf, text)
+            elif op == 1:
+                e = "(peg/match ~(any (+ (* (constant ,%s) (replace (<- (range \"az\")) ,%s)) 1)) \"%s\")" % (self.val(1), cf, text)
+            elif op == 2:
+                e = "(peg/find-all ~(+ (cmt (<- (range \"ac\")) ,%s) \"x\") \"%s\")" % (cf, text)
+            else:
+                e = "(%s ~(<- (range \"az\")) %s \"%s\")" % (r.choice(["peg/replace-all", "peg/replace"]), cf, text)
+            return "(show \"%s\" (try %s ([e] [:perr e])))" % (t, e)
         self.note("closure-chain")
         return "(do (var f (fn [] %s)) (repeat %d (set f (let [g f] (fn [] (g))))) (set %s f) (show \"%s\" (f)))" % (self.val(1), r.range(1, 60), a, t)
 
